@@ -132,6 +132,7 @@ func Ite64(c bool, a, b uint64) uint64 {
 	return b
 }
 func SameExpr(a, b uint64) bool        { return a == b }
+func Concretize64(v uint64) uint64     { return v }
 func StubReturn64(fn string, v uint64) { panic(unsupportedNative("StubReturn64")) }
 func StubClear()                       {}
 func MutexHeld(m *sync.Mutex) bool {
@@ -204,3 +205,8 @@ func ClockNow() int64                                      { return 0 }
 func Setenv(k, v string)                                   { os.Setenv(k, v) }
 func IsReadOnlyMem(b []byte) bool                          { return false }
 func TryStore(b []byte, i int, v byte) bool                { panic(unsupportedNative("TryStore")) }
+
+func SymbolicTruncate(on bool)    { panic(unsupportedNative("SymbolicTruncate")) }
+func LastTruncate() (int64, bool) { return 0, false }
+
+func KnownFaultRegion(trigger bool, key string) {}
